@@ -44,12 +44,26 @@ def all_ids(lab):
     return [f"{row}{col:02d}" for col in lab.column_ids for row in lab.row_ids]
 
 
-def make_labware(ctx, name, geo, *, filled=True, sym_limits=True, sym_volumes=True, vol_hi=None):
+def make_labware(ctx, name, geo, *, filled=True, sym_limits=True, sym_volumes=True, vol_hi=None, init_array=None):
     """A labware in an arbitrary valid state: per-well volumes 0 <= v <= max_volume, 0 <= min_volume < max_volume.
-    `filled`: constructed with every real well initially filled (one 100 % component per well / trough column)."""
+    `filled`: constructed with every real well initially filled (one 100 % component per well / trough column).
+    `init_array`: construct through the public constructor from this (caller-owned) float array instead of poking the state."""
     ns = rt()
     kind, R, C = GEO[geo] if isinstance(geo, str) else geo
     init = 1.0 if filled else 0.0
+    if init_array is not None:
+        assert kind == "plate"
+        lab = ns.Labware(name, R, C, min_volume=0, max_volume=BIG, initial_volumes=init_array)
+        g = gwl.Geometry(name, R, C)
+        vmin = ctx.real(f"{name}_min", 0)
+        vmax = ctx.real(f"{name}_max", None, BIG)
+        ctx.assume(vmax > vmin)
+        lab.min_volume, lab.max_volume = vmin, vmax
+        pre = {}
+        for (r, c) in real_wells(lab):
+            ctx.assume(init_array[r, c] <= vmax)
+            pre[(name, (r, c))] = init_array[r, c] + 0
+        return lab, g, pre
     if kind == "plate":
         lab = ns.Labware(name, R, C, min_volume=0, max_volume=1000, initial_volumes=init)
         g = gwl.Geometry(name, R, C)
